@@ -20,10 +20,10 @@ from pyglove.ext import evolution as evo
 from pgverif.monitors import sched as S
 
 TIERS = {
-    'quick': dict(shards=8, cases=44, free_every=8, replay_every=11,
-                  watchdog_s=30, timeout_s=600),
+    'quick': dict(shards=8, cases=80, free_every=8, replay_every=20,
+                  watchdog_s=60, timeout_s=600),
     'thorough': dict(shards=16, cases=1500, free_every=10, replay_every=50,
-                     watchdog_s=30, timeout_s=3000, case_timeout_s=300),
+                     watchdog_s=60, timeout_s=4500, case_timeout_s=300),
 }
 LEVEL = 'exploration'
 EXHAUSTIVE = {'quick': False, 'thorough': False}
@@ -119,6 +119,7 @@ class RecordingGenerator(pg.geno.DNAGenerator):
     rec.events.append((rec.sched.stamp(), 'feedback', dna.userdata.get('pid'),
                        tuple(dna.to_numbers()), reward, rec.sched.worker_index()))
     self.inner.feedback(dna, reward)
+    rec.events.append((rec.sched.stamp(), 'feedback-end', dna.userdata.get('pid')))
 
 
 @pg.members([('threshold', pg.typing.Float())])
@@ -585,6 +586,40 @@ def check_session(sess, counters):
           f'after {nfb} feedback() calls')
   elif sess.recorder.setups > 1:
     c['sessions_algorithm_setup_twice'] += 1
+
+  # -- the evolution's population reflects the feedbacks (Last(3)) -----------------------
+  if (cfg['algorithm'].startswith('evolution') and sess.recorder.setups == 1
+      and not died):
+    ops = []                                   # (begin, end, pid) per feedback() call
+    ends = collections.defaultdict(list)
+    for e in gens:
+      if e[1] == 'feedback-end':
+        ends[e[2]].append(e[0])
+    for p, fbs in feedbacks.items():
+      for k, f in enumerate(sorted(fbs)):
+        es = sorted(ends.get(p, []))
+        ops.append((f[0], es[k] if k < len(es) else float('inf'), p))
+    if len({o[2] for o in ops}) != len(ops):
+      c['population_checks_skipped_double_feedback'] += 1
+    else:
+      c['check:population'] += 1
+      pop = [d.userdata.get('pid') for d in sess.inner.population]
+      fed = {o[2] for o in ops}
+      if (len(pop) != min(3, len(ops)) or len(set(pop)) != len(pop)
+          or not set(pop) <= fed):
+        bad('algorithm-population', 'membership',
+            f'population (proposal numbers) {pop} after feedbacks for proposals '
+            f'{sorted(fed)}; expected the last {min(3, len(ops))} of them')
+      else:
+        # Last(3): a kept feedback that had returned before a dropped one
+        # began means the dropped one was lost.
+        kept = [o for o in ops if o[2] in pop]
+        dropped = [o for o in ops if o[2] not in pop]
+        lost = [(y, x) for y in kept for x in dropped if y[1] < x[0]]
+        if lost:
+          bad('algorithm-population', 'lost-update',
+              f'population {pop} keeps feedback (begin, end, proposal) {lost[0][0]} but not '
+              f'the later {lost[0][1]}; all feedback calls: {sorted(ops)}')
 
   # -- co-workers hold the same pending trial ------------------------------------------------
   c['check:group-hold'] += 1
